@@ -4424,6 +4424,18 @@ class MacroInstance: # dummy object used to track nested macros for diagnostics
 # PARSE CTX
 # =========
 
+# Output names become members of the generated state struct as they are: they must not be keywords of C or C++ (the header is
+# meant to be usable from both), nor the macros of <stdbool.h>
+C_RESERVED_WORDS = frozenset("""
+auto break case char const continue default do double else enum extern float for goto if inline int long register restrict return
+short signed sizeof static struct switch typedef union unsigned void volatile while _Alignas _Alignof _Atomic _Bool _Complex _Generic
+_Imaginary _Noreturn _Static_assert _Thread_local bool true false
+alignas alignof and and_eq asm bitand bitor catch char8_t char16_t char32_t class compl concept consteval constexpr constinit const_cast
+co_await co_return co_yield decltype delete dynamic_cast explicit export friend mutable namespace new noexcept not not_eq nullptr operator
+or or_eq private protected public reinterpret_cast requires static_assert static_cast template this thread_local throw try typeid typename
+using virtual wchar_t xor xor_eq
+""".split())
+
 class ParseCtx:
     def __init__(self, parse_tree: lark.Tree):
         self._parse_tree = parse_tree
@@ -4445,11 +4457,23 @@ class ParseCtx:
         self.finish_codes = []
     
     def parse(self):
+        # Enumeration constants and result codes all become enumerators named <PROGRAM>_<...>: keep track of who produced which
+        generated_enumerators = {x: None for x in ("OK", "FAIL", "DONE")}
+        def claim_enumerator(generated_name, source):
+            if generated_name in generated_enumerators:
+                raise DuplicateDefinitionError("generated C enumerator", source, generated_name)
+            generated_enumerators[generated_name] = source
+
         # Parse state_object_spec
         for out in self._parse_tree.find_data("out_decl"):
             out_obj = self._parse_out_decl(out)
             if out_obj.name in self.state_object_spec:
                 raise DuplicateDefinitionError("output variable", out, out_obj.name)
+            if out_obj.name in C_RESERVED_WORDS:
+                raise IllegalParseTree("Output name is a reserved word in C or C++", out.children[1])
+            if out_obj.holds_a(OutputStorageType.ENUM):
+                for enum_value in out_obj.enum_values:
+                    claim_enumerator(f"{out_obj.name.upper()}_{enum_value.upper()}", out)
             if out_obj.holds_a(OutputStorageType.ENUM):
                 if any(x.upper() == out_obj.name.upper() for x in self.state_object_spec):
                     raise DuplicateDefinitionError("enum header name", out, out_obj.name.upper())
@@ -4480,6 +4504,7 @@ class ParseCtx:
                 val = i.value
                 if val in target:
                     raise DuplicateDefinitionError("code", i, val)
+                claim_enumerator(("YIELD_" if target is self.yield_codes else "FINISH_") + val, i)
                 target.append(val)
 
         # Parse main
